@@ -1,7 +1,7 @@
 (* C13Main.v — the C13 statements.  Scalar kinds: about the methods REGENERATED from models.py;
    multi-variables and random sampling: about the hand model (tied by correspondence). *)
 From Coq Require Import List ZArith Bool Arith Lia Permutation.
-From PV Require Import Xnum Select PyLib Argsort Vars Vars_proofs.
+From PV Require Import Xnum Select PyLib Argsort Labels Vars Vars_proofs.
 From PVGen Require Import GenVars.
 From PVBridge Require Import VarsBridge.
 Import ListNotations.
@@ -77,8 +77,8 @@ Proof.
   - intros pi' Hpi'. rewrite perm_correct_bridge. apply Fix; auto.
     rewrite (Permutation_length R), seq_length. exact R.
 Qed.
-Theorem perm_decode_law L (inverse_transform : list nat -> list L) v pi :
-  gen_perm_decode L inverse_transform v pi = inverse_transform (gen_perm_correct v pi).
+Theorem perm_decode_law L (labels : list L) v pi :
+  gen_perm_decode L labels v pi = decode_labels L labels (gen_perm_correct v pi).
 Proof. reflexivity. Qed.
 
 Theorem validators_reject :
